@@ -176,7 +176,8 @@ impl<'a, BE: DecryptWriteBackend, I: ReadGlobalIndex> TreeArchiver<'a, BE, I> {
         self.summary.total_dirs_processed += 1;
         self.summary.total_dirsize_processed += dirsize;
         match parent {
-            ParentResult::Matched(p_id) if id == *p_id => {
+            // only skip saving if the parent's identical tree is still present in the index
+            ParentResult::Matched(p_id) if id == *p_id && self.index.has_tree(&id) => {
                 debug!("unchanged tree: {}", path.display());
                 self.summary.dirs_unmodified += 1;
                 return Ok(id);
